@@ -9,7 +9,7 @@ def block(name, text, s):
         s += f"\n{b}\n{e}\n"
     return re.sub(re.escape(b) + r".*?" + re.escape(e), b + "\n" + text + "\n" + e, s, flags=re.S)
 rows = ["| id | property | what the change does / what it needs to manifest | checks that catch it |", "|---|---|---|---|"]
-for d in sorted(glob.glob(V + "/seeded/*")):
+for d in sorted(x for x in glob.glob(V + "/seeded/*") if os.path.exists(x + "/meta.json")):
     m = json.load(open(d + "/meta.json"))
     rows.append("| %s | %s | %s — needs: %s | %s |" % (os.path.basename(d), m.get("property"), str(m.get("title", "")).replace("|", "/")[:220],
                 str(m.get("what_it_needs_to_manifest", "")).replace("|", "/").replace("\n", " ")[:260], str(m.get("checks_that_catch_it", "")).replace("|", "/")))
